@@ -1,8 +1,13 @@
 (* Model of the reference-resolution rounds of textx/model.py:
    ReferenceResolver.resolve_one_step (one pass over a model's pending cross-references,
    in textual order) and the outer loop of parse_tree_to_objgraph
-   (`while unresolved_count > 0 and resolved_count > 0` over all included models). *)
-From TxV Require Import Core.Base.
+   (`while unresolved_count > 0 and resolved_count > 0` over all included models).
+   The behaviour-relevant choices of that code are NOT written down here: they are the
+   constants of Gen/SrcResolve.v, regenerated from textx/model.py on every run by
+   tools/translate/resolve_tr.py (how a resolved list reference is stored, at which end a
+   Postponed reference is re-queued / reported, which resolutions count as progress, the
+   loop condition and the error condition). *)
+From TxV Require Import Core.Base Gen.SrcResolve.
 
 Record xref := { xid : nat;                (* identity of the cross-reference *)
                  xslot : nat;              (* the (object, attribute) it belongs to *)
@@ -33,9 +38,13 @@ Fixpoint insert_pos (p t : nat) (l : list (nat * nat)) : list (nat * nat) :=
   | (p', t') :: l' => if Nat.ltb p p' then (p, t) :: l else (p', t') :: insert_pos p t l'
   end.
 
+(* how the source stores a resolved list reference (Gen fact) *)
+Definition store_list (p t : nat) (l : list (nat * nat)) : list (nat * nat) :=
+  if list_store_by_position then insert_pos p t l else l ++ [(p, t)].
+
 Definition store (x : xref) (t : nat) (st : state) : state :=
   {| tgt := fun i => if Nat.eqb i (xid x) then Some t else tgt st i;
-     lists := fun s => if (Nat.eqb s (xslot x) && xmany x)%bool then insert_pos (xpos x) t (lists st s) else lists st s;
+     lists := fun s => if (Nat.eqb s (xslot x) && xmany x)%bool then store_list (xpos x) t (lists st s) else lists st s;
      singles := fun s => if (Nat.eqb s (xslot x) && negb (xmany x))%bool then Some t else singles st s;
      asked := asked st; log := log st |}.
 
@@ -44,36 +53,47 @@ Definition bump (x : xref) (st : state) : state :=
      asked := fun i => if Nat.eqb i (xid x) then S (asked st i) else asked st i;
      log := xid x :: log st |}.
 
-(* resolve_one_step: returns the new state, the delayed references (in order) and the number resolved;
+(* a Postponed reference is put back at the back (append) or the front (insert(0, ...)) of a
+   queue; the queue is built while walking the pending list front to back *)
+Definition carry (front : bool) (x : xref) (later : list xref) : list xref :=
+  if front then later ++ [x] else x :: later.
+
+(* does resolving x increment resolved_crossref_count? (Gen facts) *)
+Definition counted (x : xref) : nat :=
+  if (if xmany x then counts_list_resolution else counts_scalar_resolution) then 1 else 0.
+
+(* resolve_one_step: returns the new state, the new pending list (parser._crossrefs), the delayed
+   references (self.delayed_crossrefs) and the progress count;
    None = the provider found nothing (Unknown object error) *)
-Fixpoint step (ans : provider) (pend : list xref) (st : state) : option (state * list xref * nat) :=
+Fixpoint step (ans : provider) (pend : list xref) (st : state) : option (state * list xref * list xref * nat) :=
   match pend with
-  | [] => Some (st, [], 0)
+  | [] => Some (st, [], [], 0)
   | x :: r =>
       match ans x st with
       | NotFound => None
       | Postponed => match step ans r (bump x st) with
-                     | Some (st', d, c) => Some (st', x :: d, c)
+                     | Some (st', np, d, c) => Some (st', carry postponed_requeued_at_front x np, carry postponed_reported_at_front x d, c)
                      | None => None
                      end
       | Resolved t => match step ans r (store x t (bump x st)) with
-                      | Some (st', d, c) => Some (st', d, S c)
+                      | Some (st', np, d, c) => Some (st', np, d, counted x + c)
                       | None => None
                       end
       end
   end.
 
-(* one round over all models, in model order *)
-Fixpoint round (ans : provider) (models : list (list xref)) (st : state) : option (state * list (list xref) * nat) :=
+(* one round over all models, in model order: state, pending lists, delayed lists, progress *)
+Fixpoint round (ans : provider) (models : list (list xref)) (st : state)
+  : option (state * list (list xref) * list (list xref) * nat) :=
   match models with
-  | [] => Some (st, [], 0)
+  | [] => Some (st, [], [], 0)
   | m :: ms =>
       match step ans m st with
       | None => None
-      | Some (st1, d, c) =>
+      | Some (st1, np, d, c) =>
           match round ans ms st1 with
           | None => None
-          | Some (st2, ds, c') => Some (st2, d :: ds, c + c')
+          | Some (st2, nps, ds, c') => Some (st2, np :: nps, d :: ds, c + c')
           end
       end
   end.
@@ -82,15 +102,20 @@ Inductive outcome := Ok (st : state) | Unresolvable (left : list (list xref)) (s
 
 Definition total (models : list (list xref)) : nat := length (concat models).
 
+(* `counter > k` with counter = unresolved_count (true) or resolved_count (false) *)
+Definition holds (unres res : nat) (c : bool * nat) : bool := Nat.ltb (snd c) (if fst c then unres else res).
+
+(* the loop (both counters start at 1, so the first round always runs); afterwards the error
+   test; the error names the delayed references of all models in model order *)
 Fixpoint loop (fuel : nat) (ans : provider) (models : list (list xref)) (st : state) : outcome :=
   match fuel with
   | O => OutOfFuel
   | S f =>
       match round ans models st with
       | None => UnknownObject
-      | Some (st', models', c) =>
-          if (Nat.ltb 0 (total models') && Nat.ltb 0 c)%bool then loop f ans models' st'
-          else if Nat.ltb 0 (total models') then Unresolvable models' st'
+      | Some (st', pends, dels, c) =>
+          if forallb (holds (total dels) c) loop_condition then loop f ans pends st'
+          else if holds (total dels) c error_condition then Unresolvable dels st'
           else Ok st'
       end
   end.
@@ -99,9 +124,12 @@ Definition load (ans : provider) (models : list (list xref)) : outcome := loop (
 
 (* the table-driven provider of C09: a reference resolves once everything it waits for has resolved *)
 Definition is_some {A} (o : option A) : bool := match o with Some _ => true | None => false end.
-Definition dep_ans : provider := fun x st =>
-  if xnever x then Postponed
-  else if forallb (fun d => is_some (tgt st d)) (xdeps x) then Resolved (xtgt x) else Postponed.
+(* providers given by a readiness predicate over the set of resolved references *)
+Definition resolved_set (st : state) : nat -> bool := fun i => is_some (tgt st i).
+Definition mono_ans (ready : xref -> (nat -> bool) -> bool) : provider := fun x st =>
+  if ready x (resolved_set st) then Resolved (xtgt x) else Postponed.
+Definition dep_ready (x : xref) (S : nat -> bool) : bool := (negb (xnever x) && forallb S (xdeps x))%bool.
+Definition dep_ans : provider := mono_ans dep_ready.
 
 (* a scripted provider for C08: reference i is postponed on its first delay(i) calls *)
 Definition sched_ans (delay : nat -> nat) : provider := fun x st =>
@@ -110,3 +138,52 @@ Definition sched_ans (delay : nat -> nat) : provider := fun x st =>
 (* the provider used by the correspondence harness: delay first, then the dependency table *)
 Definition table_ans (delay : nat -> nat) : provider := fun x st =>
   if Nat.ltb (asked st (xid x)) (delay (xid x)) then Postponed else dep_ans x st.
+
+(* ---------------------------------------------------------------- providers that ask the resolver
+   Real scope providers decide "has the reference I depend on been resolved" with
+   textx.scoping.tools.needs_to_be_resolved = ReferenceResolver.has_unresolved_crossrefs of the model
+   that owns it, which scans parser._crossrefs.  That list is only replaced at the END of
+   resolve_one_step, so the answer is a snapshot: a reference counts as settled once the step of its
+   model in which it resolved has finished.  [settled] is that observable; it is fixed during a step
+   and committed after it. *)
+Definition sprovider := (nat -> bool) -> provider.
+
+Definition commit (m : list xref) (st : state) (settled : nat -> bool) : nat -> bool :=
+  fun i => if existsb (fun x => Nat.eqb i (xid x)) m then is_some (tgt st i) else settled i.
+
+Fixpoint qround (ans : sprovider) (models : list (list xref)) (st : state) (settled : nat -> bool)
+  : option (state * list (list xref) * list (list xref) * nat * (nat -> bool)) :=
+  match models with
+  | [] => Some (st, [], [], 0, settled)
+  | m :: ms =>
+      match step (ans settled) m st with
+      | None => None
+      | Some (st1, np, d, c) =>
+          match qround ans ms st1 (commit m st1 settled) with
+          | None => None
+          | Some (st2, nps, ds, c', s2) => Some (st2, np :: nps, d :: ds, c + c', s2)
+          end
+      end
+  end.
+
+Fixpoint qloop (fuel : nat) (ans : sprovider) (models : list (list xref)) (st : state) (settled : nat -> bool) : outcome :=
+  match fuel with
+  | O => OutOfFuel
+  | S f =>
+      match qround ans models st settled with
+      | None => UnknownObject
+      | Some (st', pends, dels, c, settled') =>
+          if forallb (holds (total dels) c) loop_condition then qloop f ans pends st' settled'
+          else if holds (total dels) c error_condition then Unresolvable dels st'
+          else Ok st'
+      end
+  end.
+
+Definition qload (ans : sprovider) (models : list (list xref)) : outcome :=
+  qloop (S (total models)) ans models init (fun _ => false).
+
+(* the harness's provider in query mode: delay first, then the dependency table read through the snapshot *)
+Definition snap_ans (delay : nat -> nat) : sprovider := fun settled x st =>
+  if Nat.ltb (asked st (xid x)) (delay (xid x)) then Postponed
+  else if xnever x then Postponed
+  else if forallb settled (xdeps x) then Resolved (xtgt x) else Postponed.
